@@ -310,6 +310,32 @@ fn main() {
         }
         run_case(l, &spec.text(), false);
     });
+    // chords and near-chords: every gap sequence of 5 (thorough 6) circles over {0, 1, 150, 400} ms, native in all four
+    // modes — runs of objects sharing one timestamp (interval 0: ratios 0/0, x/0) anywhere in the map, same worker build
+    {
+        let gaps = [0u32, 1, 150, 400];
+        let n = ctx.pick(4u32, 5);
+        let per = (gaps.len() as u64).pow(n);
+        let name = format!("realistic-vdebug/simultaneous/4-modes/{}-circles", n + 1);
+        ctx.universe_isolated(&name, per * 4, 5.0, 1024, |idx, l| {
+            let mode = (idx / per) as u8;
+            let mut r = idx % per;
+            let mut objs = vec![gen::Obj { kind: Kind::Circle, gap: 0, pos: PosK::Far, sound: 0, col: 0 }];
+            for i in 0..n {
+                objs.push(gen::Obj { kind: Kind::Circle, gap: gaps[(r % 4) as usize], pos: if i % 2 == 0 { PosK::Far } else { PosK::Same }, sound: if i % 3 == 0 { 8 } else { 0 }, col: (i % 3) as u8 });
+                r /= 4;
+            }
+            let spec = gen::MapSpec::new(mode, objs);
+            if l.want_sample() {
+                let mut o = J::obj();
+                o.set("universe", J::s(name.clone()));
+                o.set("index", J::i(idx));
+                o.set("map_spec", J::s(spec.describe()));
+                l.sample(o);
+            }
+            run_case(l, &spec.text(), false);
+        });
+    }
     ctx.set_worker_exe(None);
     // one flat universe over (template, mode, deviation set) so that the few expensive cases overlap with the rest
     let mut parts: Vec<(&str, &str, u8, Vec<Vec<(usize, usize)>>)> = Vec::new();
